@@ -208,6 +208,17 @@ def cases(rng, tier, shard, nshards):
         if rng.random() < 0.03:
             t = 0.0            # boundary: a cost of exactly 0 is not < 0, so no member is acceptable (all points); R2 >= 0 always is
         tl = [t2] + [float(10.0 ** rng.uniform(-4, 0)) for _ in range(int(rng.integers(0, 3)))]
+        if rng.random() < 0.5 and n >= 4:
+            # more members of the curve's own cost ladder (closely spaced thresholds: each one selects another member)
+            with install.quiet():
+                for _k in range(int(rng.integers(1, 4))):
+                    try:
+                        sk3 = mods['rdp'].rdp_fixed(pts, int(rng.integers(2, n + 1)))[0]
+                        v3 = float(mods['evaluation'].compute_global_cost(pts, sk3, cost(mods, 'smape')))
+                    except Exception:
+                        continue
+                    if np.isfinite(v3) and v3 > 0:
+                        tl.append(float(v3 * pick(rng, [0.98, 1.0, 1.02, 1.1])))
         if rng.random() < 0.03:
             tl.append(0.0)
         rng.shuffle(tl)
